@@ -418,6 +418,14 @@ func (c *Cmd) Start() error {
 	line, _ := bufio.NewReaderSize(f, 1<<20).ReadString('\n')
 	f.Close()
 	if !strings.HasPrefix(line, Header) {
+		if strings.HasPrefix(line, "#!") {
+			// a script whose interpreter does not exist: the kernel answers ENOENT for the script itself
+			if f := strings.Fields(strings.TrimPrefix(line, "#!")); len(f) > 0 {
+				if _, err := os.Stat(f[0]); err != nil {
+					return startErr(c.Path, syscall.ENOENT)
+				}
+			}
+		}
 		return startErr(c.Path, syscall.ENOEXEC)
 	}
 	rest := strings.TrimSpace(strings.TrimPrefix(line, Header))
